@@ -15,7 +15,7 @@ def add(pid, pkg, tests, rule, level="exploration", technique="", text="", note=
 
 add("C20", "c_tl",
     [T("TestC20", 20000, 60000), T("TestC20Arbitrary", 40000, 200000)],
-    rule="rapid-generated concatenations of 1..10 TL primitives (boundary-biased values; string/bytes lengths around 253/254, 65535, 2^24-1) and arbitrary/mutated/hostile-length-prefix inputs; non-trivial = concatenation of >=2 values or a string/bytes of length >=252 (round-trip test), non-empty input (arbitrary-bytes test); distinct by value descriptor / input bytes",
+    rule="rapid-generated concatenations of 1..10 TL primitives (boundary-biased values; string/bytes lengths around 253/254, 65535, 2^24-1) appended behind a 0..7-byte prefix into a buffer whose spare capacity (none / 16 / 300 / 70000 bytes) is full of non-zero bytes, and arbitrary/mutated/hostile-length-prefix inputs; non-trivial = concatenation of >=2 values or a string/bytes of length >=252 (round-trip test), non-empty input (arbitrary-bytes test); distinct by value descriptor / input bytes",
     technique="property-based round-trip + differential against an independent TL reference writer/reader (rapid)",
     text="Generated search: every generated value sequence must encode 4-byte aligned and byte-identical to an independent reference writer, decode back consuming exactly the encoded length, fail on every strict prefix, and arbitrary inputs must decode (or fail) exactly as the reference reader does. Sampled, not exhaustive.",
     note="Trusts the harness reference TL writer/reader (pbt/ref/tl.go, written from core.telegram.org/mtproto/serialize) and rapid's generators.",
@@ -153,7 +153,7 @@ add("C42", "c_misc",
 add("C16", "c_transport",
     [T("TestC16", 15000, 150000), T("TestC16Conn", 4000, 40000)],
     pre=["TestC16Regression_limit_overhead", "TestC16Known"],
-    rule="protocol in {abridged, intermediate, padded intermediate, full} x header/no header x plain/obfuscated2 listener/net.Pipe; 1..20 payloads with lengths around the 127-word abridged boundary, 4-byte error frames, 1 KiB..16 MiB (rare); chunking reader with drawn cut points incl. 1-byte reads; 1..4 concurrent senders per direction on one transport.Conn. non-trivial = >=2 frames on both sides of the 127-word boundary or a cut inside a length prefix (codec) / that or >1 concurrent sender (conn); distinct by stream description",
+    rule="protocol in {abridged, intermediate, padded intermediate, full} x header/no header x plain/obfuscated2 listener/net.Pipe; 1..20 payloads with lengths around the 127-word abridged boundary, 4-byte error frames, 1 KiB..16 MiB (rare); write buffers with 16 bytes of non-zero spare capacity; chunking reader with drawn cut points incl. 1-byte reads, receive buffer reused or fresh; 1..4 concurrent senders per direction on one transport.Conn. non-trivial = >=2 frames on both sides of the 127-word boundary or a cut inside a length prefix (codec) / that or >1 concurrent sender (conn); distinct by stream description",
     technique="round-trip PBT (rapid) cross-checked by an independent reference framing reader (pbt/ref/framing.go)",
     text="The receiver yields exactly the sent payload sequence per sender; the wire parses with the reference reader to the same payloads; 4-byte frames come back as ProtocolErr; the listener selects the codec the client chose.",
     note="Trusts the harness reference framing written from the transport specification.")
@@ -350,7 +350,7 @@ add("C22", "c_tl",
     [T("TestC22", 10000, 100000), T("TestC22GzipLimits", 1, 1, rapid=False, timeout_thorough=4800)],
     pre=["TestC22Regression_container_negative_count", "TestC22Known"],
     fuzz=[dict(name="FuzzC22", seconds=120)],
-    rule="containers of 0..50 messages with bodies up to 1 MiB, rpc_result, unencrypted messages, gzip objects (sizes around 10 MiB, compressible bombs of 16/64/1024 MiB built streaming, concatenated members, corruptions), malformed counts/lengths/truncations/wrong ids, raw bytes; after every case a fixed valid gzip object must decode through the pooled reader. non-trivial = >=2 messages, a body >= 64 KiB, a non-empty result, gzip data >= 4 KiB or near the limit, or any malformed case; distinct by case",
+    rule="containers of 0..50 messages with bodies up to 1 MiB, rpc_result, unencrypted messages, gzip objects (sizes around 10 MiB, compressible bombs of 16/64/1024 MiB built streaming, concatenated members, corruptions), malformed counts/lengths/truncations/wrong ids, raw bytes; every encoding is written into a used buffer (dirty spare capacity); after every case a fixed valid gzip object must decode through the pooled reader. non-trivial = >=2 messages, a body >= 64 KiB, a non-empty result, gzip data >= 4 KiB or near the limit, or any malformed case; distinct by case",
     technique="round-trip + differential PBT (rapid) against an independent writer (pbt/ref + stdlib gzip), allocation-delta oracle, fixed limit list, native fuzzing (thorough)",
     text="decode(encode(x)) == x and the library encoding equals the reference bytes; gzip yields the data below 10 MiB and fails above, len(Data) <= 10 MiB always; malformed input gives an error, never a panic; the pooled gzip reader survives errors.",
     note="")
